@@ -11,6 +11,17 @@ def sh(cmd, cwd=None, timeout=1800):
     except subprocess.TimeoutExpired as e:
         return 124, (e.stdout or '') + '\n[timeout]'
 
+def run_meta_cmd(W, d, meta):
+    cmd = meta.get('demo_cmd', '')
+    # strip "git apply / cmake --build" prefixes (the tool does that itself); keep from the first `cd <demo dir>`
+    i = cmd.find('cd %s' % d)
+    if i < 0:
+        i = cmd.find('cd /tmp/adv')
+    cmd = cmd[i:] if i >= 0 else cmd
+    cmd = cmd.split('#')[0].split(' ; ')[0]
+    return sh(cmd, timeout=900)
+
+
 def build_demo(W, d, meta):
     if os.path.exists(os.path.join(d, 'build.sh')):
         return sh('sh build.sh %s/_build/libmuscle.a demo_confirm' % W, cwd=d)
@@ -49,16 +60,26 @@ def main():
                 ok = ok and '100% tests passed' in o2
             r['tests_pass_after_rerun'] = ok
         runsh = os.path.exists(os.path.join(d, 'run.sh'))
-        rc, out = (0, '') if runsh else build_demo(W, d, meta)
-        r['demo_builds_changed'] = rc == 0
-        rc, out = sh('sh run.sh %s/_build/libmuscle.a' % W, cwd=d, timeout=900) if runsh else sh('./demo_confirm', cwd=d, timeout=300)
+        runarg = '' if (runsh and 'SRC' in open(os.path.join(d, 'run.sh')).read()) else '%s/_build/libmuscle.a' % W
+        use_meta = os.environ.get('CONFIRM_USE_META') == '1'
+        if use_meta:
+            rc, out = run_meta_cmd(W, d, meta)
+            r['demo_builds_changed'] = True
+        else:
+            rc, out = (0, '') if runsh else build_demo(W, d, meta)
+            r['demo_builds_changed'] = rc == 0
+            rc, out = sh('sh run.sh %s' % runarg, cwd=d, timeout=900) if runsh else sh('./demo_confirm', cwd=d, timeout=300)
         r['demo_changed_rc'] = rc
         r['demo_changed_tail'] = out[-1500:]
         sh('git checkout -q -- .', cwd=W)
         sh('cmake --build _build -j8 --target muscle 2>&1 | tail -2', cwd=W)
-        rc, out = (0, '') if runsh else build_demo(W, d, meta)
-        r['demo_builds_unchanged'] = rc == 0
-        rc, out = sh('sh run.sh %s/_build/libmuscle.a' % W, cwd=d, timeout=900) if runsh else sh('./demo_confirm', cwd=d, timeout=300)
+        if use_meta:
+            rc, out = run_meta_cmd(W, d, meta)
+            r['demo_builds_unchanged'] = True
+        else:
+            rc, out = (0, '') if runsh else build_demo(W, d, meta)
+            r['demo_builds_unchanged'] = rc == 0
+            rc, out = sh('sh run.sh %s' % runarg, cwd=d, timeout=900) if runsh else sh('./demo_confirm', cwd=d, timeout=300)
         r['demo_unchanged_rc'] = rc
         r['demo_unchanged_tail'] = out[-800:]
         r['confirmed'] = bool(r['applies'] and r['builds'] and (r['tests_pass'] or r.get('tests_pass_after_rerun')) and r['demo_changed_rc'] != 0 and r['demo_unchanged_rc'] == 0)
